@@ -23,7 +23,9 @@ spec -> code: TLC builds argument lists by actions (a bottom-up stack machine, s
     f(*it, **m), [*it], {**m}; every type is the operand of every spread it fits (variable and
     single-tag string), stands alone and among other arguments, and is also passed NOT spread (then the
     receiver gets the object itself); the second context gives each variable another type of the
-    same kind - and
+    same kind; W: nested strings that hold a STATEFUL stock tag (TagArgs!StatefulTpl: {% cycle %},
+    {% ifchanged %} - their j-th evaluation within one render is valued by the j-th rendering within one
+    stock render) - and
     exports every list with its text under each style of a pairwise covering array of layout
     knobs (TLC checks the coverage as an ASSUME) and with Denote(args).  Each text is placed in a
     probe tag built with @template_tag (records *args / **kwargs / flags) and in
@@ -43,6 +45,12 @@ spec -> code: TLC builds argument lists by actions (a bottom-up stack machine, s
     one tag instance, the loop variable feeding filter arguments such as "k"|add:it), the
     component tag / slot with both contexts in one layout per list.  Every
     evaluation must hand over the values of ITS context / iteration.
+    Neighbours: every tag of a template is a tag of its own (TagArgs!TogetherForms / DenoteTogether): each
+    valid list is also replayed as 2 / 3 tags with the SAME argument text in one template - each in its own
+    {% for %} loop, or bare one after the other - rendered with both contexts; every copy must hand over in
+    every evaluation what the single tag does (the second loop starts the cycle again).  Lists of W: all
+    four forms on the probe and the component tag in every layout; the other configurations: the probe tag as
+    a pair in loops and the component tag as a bare triple, in one layout per list.
 code -> spec: a seeded random driver builds deeper / wider lists (over the syntax-sensitive and the
     value-sensitive leaves together) with random styles (knob values outside the covering array),
     renders them with its own text function, runs the real tags and
@@ -90,7 +98,10 @@ RULE = ("TLC (MC_C02) enumerates by BFS every argument list inside the bounds of
         "and N/M (value-sensitive alphabets: None / falsy values, HTML-special text in every argument position) and "
         "T/U (containers by Python type - tuple, range, keys(), MappingProxyType, ChainMap, UserDict, OrderedDict - as "
         "operand of every spread and as plain values) and "
-        "samples deeper ones with -simulate (S); each list is replayed on the probe tag and on the component tag "
+        "W (nested strings with stateful stock tags - cycle, ifchanged) and "
+        "samples deeper ones with -simulate (S); every valid list is also replayed as 2 / 3 tags with the same "
+        "argument text in one template (each in its own loop / bare), every copy compared with the single tag's "
+        "expectation; each list is replayed on the probe tag and on the component tag "
         "in k layouts of a 15-row pairwise covering array (quick k=3, thorough k=5 - N/M: 3 -, rotating with the case number); "
         "every compiled template is rendered with two contexts that differ in every variable (probe tag: every "
         "layout, once inside a {% for %}; component / slot: one layout per list), behind a {% load %} of "
@@ -108,6 +119,8 @@ ASSUMPTIONS = [
     "(None / 0 / '' / text as dict keys), and the same items / entries held by a tuple, range, dict keys() view, "
     "OrderedDict, MappingProxyType, ChainMap, UserDict; no floats, lazy strings, callables, generators, sets or "
     "objects with attributes",
+    "stateful nested tags: {% cycle %} and {% ifchanged %} of stock Django (state per node and render), loops of "
+    "two items, up to three same-text tags per template; the random driver does not use them",
     "top-level `...[..]` / `...{..}` is valid (docstring is contradictory; tests and changelog use it)",
 ]
 PROBE_TAG = "vfprobe"
@@ -154,7 +167,7 @@ VALUE_CONFIGS = {
         "M": (4, 1, 1, 2, 1, "core", False),
         "T": (2, 1, 1, 2, 1, "types", False, 1),
         "U": (2, 0, 1, 2, 2, "tcore", False),
-        "W": (2, 1, 1, 2, 2, "state", False, 1),
+        "W": (2, 1, 1, 2, 1, "state", False, 1),
     },
     "thorough": {
         "N": (2, 2, 2, 2, 1, "vals", False, 1),
@@ -162,7 +175,7 @@ VALUE_CONFIGS = {
         "D": (3, 2, 2, 2, 1, "core", False),      # the core nested two levels deep
         "T": (2, 1, 1, 2, 1, "types", False),
         "U": (3, 0, 1, 2, 3, "tcore", False),
-        "W": (3, 1, 1, 2, 2, "state", False),
+        "W": (2, 1, 1, 2, 2, "state", False, 1),
     },
     "selftest": {
         "N": (2, 1, 1, 2, 1, "vals", False, 1),
@@ -1681,6 +1694,19 @@ def selftest(tier: str) -> int:
             return
         return orig_compile(self, parser)
 
+    def compiled_values_shared_per_template(self, parser):
+        # "each distinct expression is compiled once per template": tags with the same argument text share
+        # one compiled value - and with it the per-render state of a nested {% cycle %} / {% ifchanged %}
+        if self.compiled is not None or parser is None:
+            return orig_compile(self, parser)
+        shared = parser.__dict__.setdefault("_vf_compiled", {})
+        key = (self.is_spread, self.serialize())
+        if key in shared:
+            self.compiled = shared[key]
+            return
+        orig_compile(self, parser)
+        shared[key] = self.compiled
+
     orig_parse_tag = ttag.parse_tag
 
     def newline_not_whitespace(text, parser):
@@ -1859,6 +1885,7 @@ def selftest(tier: str) -> int:
         return self._vf_memo
 
     probes = [
+        ("compiled-values-shared-by-same-text-tags", many((tp.TagValue, "compile", compiled_values_shared_per_template))),
         ("top-level-spread-only-dict-gives-kwargs", many((dnode, "resolve_params", probe_top_spread("dict-only")))),
         ("top-level-spread-only-list-tuple-give-args", many((dnode, "resolve_params", probe_top_spread("list-or-mapping")))),
         ("list-literal-spread-only-splices-lists", many((tp.TagValueStruct, "resolve", probe_struct_spread("list-only")))),
